@@ -703,7 +703,16 @@ impl<Tz: TimeZone> DateTime<Tz> {
     /// ```
     #[must_use]
     pub fn with_time(&self, time: NaiveTime) -> LocalResult<Self> {
-        self.timezone().from_local_datetime(&self.overflowing_naive_local().date().and_time(time))
+        self.timezone()
+            .from_local_datetime(&self.overflowing_naive_local().date().and_time(time))
+            // The local date may lie in the one-day headroom beyond `NaiveDate::{MIN, MAX}`; do not
+            // build a value outside of the supported range from it (same filter as `map_local`).
+            .and_then(|dt| {
+                match dt >= DateTime::<Utc>::MIN_UTC && dt <= DateTime::<Utc>::MAX_UTC {
+                    true => Some(dt),
+                    false => None,
+                }
+            })
     }
 
     /// The minimum possible `DateTime<Utc>`.
